@@ -7,19 +7,19 @@ VERIF = os.path.dirname(os.path.dirname(os.path.abspath(__file__)))
 
 CLAIMED = {
     "C17": dict(cat="exploration", design="§5 C17", engine="bindgen",
-                text="cglue-bindgen runs unmodified on headers from a calibrated emulator of cbindgen's output shape (API models: plugin-api + seeded models incl. name clashes, consuming receivers, function-pointer arguments, mixed contexts, 6 tool configurations); for every root type mock vtables log root/trait/slot/container/argument checks and every emitted wrapper is called with sentinel arguments in a C driver under ASan+UBSan; the log is judged offline (slot identity, argument order, result, ownership counters and ordering of the context guard, completeness).",
-                note="Trusts the cbindgen emulator (calibrated against examples/pregen-headers/bindings.h); C mode only.",
+                text="cglue-bindgen runs unmodified on headers from a calibrated emulator of cbindgen's output shape (API models: plugin-api + seeded models incl. name clashes, consuming receivers, function-pointer arguments, mixed contexts, 6 tool configurations); for every root type mock vtables log root/trait/slot/container/argument checks and every emitted wrapper is called with sentinel arguments in a C driver under ASan+UBSan; the log is judged offline (slot identity, argument order, result, ownership counters, release order, ordering of the context guard, completeness); sizeof of every header type is compared with the Rust layout; the header's callback/iterator helper macros are driven with 0..1000 items. The same models are emitted in cbindgen's C++ shape and every member-function wrapper is driven by one C++ translation unit per root type (g++/clang++, c++11/17).",
+                note="Trusts the cbindgen emulators (C and C++ shape, calibrated against examples/pregen-headers/bindings.h and bindings.hpp).",
                 tech="runtime monitoring: mock-vtable call logs from a generated C driver + offline checker"),
     "C18": dict(cat="exploration", design="§5 C18", engine="bindgen",
-                text="For every emulated header: 8-16 runs in fresh processes must be byte-identical, gcc -std=c99 and clang must accept a TU that only includes the output, every injected foreign declaration (adversarially named) must be present verbatim and in order; command-line cases check the `--` split, -o/--output capture, +nightly and the config source through a logging fake cbindgen/rustup.",
-                note="Trusts the cbindgen emulator; C mode (the C++ generator is not exercised: no calibrated C++ emulation exists).",
+                text="For every emulated header: 8-16 runs in fresh processes must be byte-identical, gcc -std=c99 and clang must accept a TU that only includes the output, every injected foreign declaration (adversarially named) must be present verbatim and in order; command-line cases check the `--` split, -o/--output capture, +nightly, the config source and regeneration into an existing longer file through a logging fake cbindgen/rustup. The same for headers in cbindgen's C++ shape (g++/clang++ -std=c++11, thorough c++17), incl. headers without any CGlue construct and headers that only use the foreign TypeLayout.",
+                note="Trusts the cbindgen emulators (C and C++ shape).",
                 tech="runtime monitoring: repeated tool executions + compilers as acceptors + text oracles"),
     "C05": dict(cat="exploration", design="§5 C05", engine="xmod",
-                text="A host binary dlopen()s a plugin cdylib built separately by another compiler version / optimisation level / repr(Rust) layout seed, each with its own tagging allocator and payload registry; seeded lifecycle histories over plugin-made objects are compared with the same histories on host-made objects, and both allocators watch for foreign or mis-sized frees and leftover instances.",
+                text="A host binary dlopen()s a plugin cdylib built separately by another compiler version / optimisation level / repr(Rust) layout seed, each with its own tagging allocator and payload registry; seeded lifecycle histories over plugin-made objects are compared with the same histories on host-made objects, and both allocators watch for foreign or mis-sized frees and leftover instances; foreign CVecs are edited with every growing/shrinking operation in both directions, bare CArcs are cloned and released on either side in every order, and an object that is the sole holder of a library-like context is consumed across the boundary under a backtrace oracle.",
                 note="Four installed toolchains only; both modules share the OS allocator underneath, ownership is observed by the per-module tracking tables.",
                 tech="runtime monitoring: cross-module differential histories + per-module tagging allocators"),
     "C16": dict(cat="exploration", design="§5 C16", engine="cview",
-                text="A C program compiled by gcc and clang with ASan+UBSan includes only the published declarations (cview/cglue_rt.h) and operates values created by Rust - and forges values consumed by Rust - over seeded operation sequences; Rust-side drop/refcount counters and C-side models are compared after every step; debug and release (thorough: randomized repr(Rust) layout) builds of the library.",
+                text="A C program compiled by gcc and clang with ASan+UBSan includes only the published declarations (cview/cglue_rt.h) and operates values created by Rust - and forges values consumed by Rust - over seeded operation sequences; Rust-side drop/refcount counters and C-side models are compared after every step; debug and release (thorough: randomized repr(Rust) layout) builds of the library; iterators over boxed items with an output-only slot; callbacks/iterators built with the helper macros of the processed header.",
                 note="Trusts the hand-written header as the published C view (cross-checked against examples/pregen-headers).",
                 tech="runtime monitoring: C driver over published declarations + ASan/UBSan + counter oracles"),
     "C20": dict(cat="exploration", design="§5 C20", engine="glue",
@@ -27,7 +27,7 @@ CLAIMED = {
                 note="Trusts the generator's C-signature table as the definition of 'C-visible interface'.",
                 tech="runtime monitoring: executed comparison over generated definition pairs with a model oracle"),
     "C09": dict(cat="exploration", design="§5 C09", engine="probe",
-                text="An always-compiling probe is executed and prints the complete 25-rule x 4-class x 2-marker auto-trait matrix (finite, enumerated completely); every cell where the opaque type has a marker its instance handle lacks is a violation unless listed (78 known cells = upstream issue 18). Safe-code race witnesses for the rule families run under Miri's data-race detector and do race.",
+                text="An always-compiling probe is executed and prints the complete 30-rule x 4-class x 2-marker auto-trait matrix (25 erasure rules + 5 pointer-vs-std-handle rows) (finite, enumerated completely); every cell where the opaque type has a marker its instance handle lacks is a violation unless listed (78 known cells = upstream issue 18). Safe-code race witnesses for the rule families run under Miri's data-race detector and do race.",
                 note="The judgement per cell is the trait solver's (static); the matrix is read out at run time. Witnesses cover rule families, not every cell.",
                 tech="exhaustive finite matrix read out by an executed probe + Miri data-race witnesses"),
     "C03": dict(cat="translation_validation", design="§5 C03", engine="expander",
@@ -35,7 +35,7 @@ CLAIMED = {
                 note="Trusts rustc's FFI-safety lints; generic container parameters are opaque to the lint inside generic wrappers (covered by concrete probes).",
                 tech="runtime monitoring of generator executions: per-output validation by the compiler's FFI lint"),
     "C04": dict(cat="exploration", design="§5 C04", engine="glue",
-                text="Live vtables, objects and groups are read word by word (the foreign caller's view) and compared with expectations computed by the generator of the probes (declaration order, own name sort, enabled sets); repeated on nightly -Zrandomize-layout builds; the code generator is run in fresh processes and must describe identical structs.",
+                text="Live vtables, objects and groups are read word by word (the foreign caller's view) and compared with expectations computed by the generator of the probes (declaration order, own name sort, enabled sets); repeated on nightly -Zrandomize-layout builds; the code generator is run in fresh processes and must describe identical structs; sizeof of every type in the processed C and C++ headers is compared with the Rust layout (size model checked against the real examples/plugin-api types).",
                 note="Trusts size_of/align_of and pointer-sized word reads of repr(C) objects.",
                 tech="runtime monitoring: raw-word probes of live objects + repeated generator executions"),
     "C01": dict(cat="exploration", design="§5 C01", engine="glue",
@@ -59,7 +59,7 @@ CLAIMED = {
                 note="Restricted to combinations cglue accepts at compile time.",
                 tech="runtime monitoring: exhaustive generated cast sites with event-log dispatch oracle"),
     "C10": dict(cat="exploration", design="§5 C10",
-                text="Model-based runtime monitoring: a sequential reference model of handle counts is stepped in lock-step with real CArc/CArcSome pools over bounded-exhaustive and seeded histories, forged handles with counting clone/drop stubs observe which functions the library calls, and concurrent workloads run under Miri's data-race detector (one schedule seed per process) and TSan. Held on the executions driven, not a proof.",
+                text="Model-based runtime monitoring: a sequential reference model of handle counts is stepped in lock-step with real CArc/CArcSome pools over bounded-exhaustive and seeded histories, forged handles with counting clone/drop stubs observe which functions the library calls, payloads aligned to 16..4096 bytes, Send/Sync parity with Arc read out by a probe, and concurrent workloads run under Miri's data-race detector (one schedule seed per process) and TSan. Held on the executions driven, not a proof.",
                 note="Trusts: Weak::strong_count as the real count; Miri with Stacked Borrows disabled; the tracking allocator and Tracked registry in /verif/vmon.",
                 tech="runtime monitoring: reference-model differential + Miri/ASan/TSan + counting stubs"),
     "C11": dict(cat="exploration", design="§5 C11",
